@@ -112,6 +112,12 @@ class InMemoryObjectStore(BaseObjectStore):
                 f'Name "{name}" already in {self._cim_object_type} '
                 'object store')
         # Add with deepcopy to completely isolate the copy in the repository
+        # The name object is copied if it is mutable (CIMInstanceName), so
+        # that the caller cannot modify the key of the stored object. A deep
+        # copy is needed because keybindings may be CIMInstanceName objects.
+        if self._copy_names:
+            name = deepcopy(name)
+
         self._data[name] = deepcopy(cim_object)
 
     def update(self, name, cim_object):
